@@ -1,299 +1,527 @@
 """C18 -- StringGrader matches exactly the inputs equal after the configured cleaning.
 
-D1/D2/D4/D5 are decided by bounded evaluation (E7d, `_c13_enum`) of the syntax trees of
-`clean_input`, `check_response`, `construct_message` and `__call__` over a finite domain taken from
-the property statement, compared with the reference of Appendix A9.  D3 additionally analyses the
-*construction* of the validation test with the regex term analysis of E9 (`_c13_regex`): the
-author's pattern is a hole standing for an arbitrary regular expression, so whether the test is a
-full match cannot be seen on probe patterns alone.  Nothing of /repo is imported or executed.
+All clauses are decided from the shape of the code:
+* D1  TABLE/NF: `clean_input` is extracted as an ordered pipeline of (guard, transform) terms and compared
+      with the reference table of Appendix A9 (steps, guards, and the precedence pairs that matter);
+* D2  ROLE: both compared strings are `self.clean_input(...)` of the answer's expect / the submission, and
+      the submission / expected string are used in no other way;
+* D3  REGEX construction (E9) + ROLE: every validation test is a full-match construction over the author's
+      pattern (a hole) and is applied to the cleaned strings;
+* D3/D4 ENUM over extracted decision paths (E6): the branch conditions of `check_response` are recognised
+      as atoms (option flags, "pattern is None", outcome of the opaque validation test, equality of the two
+      opaque cleaned strings, order type of the two opaque counts against the constants/options they are
+      compared with) and the decision tree is compared with the reference decision over the *complete*
+      finite domain of those atoms;
+* D4  NF: the word count is `len(<cleaned>.split())` without a separator; policy table of `construct_message`
+      over ('err','msg',None) x debug (complete) with an opaque message;
+* D5  ENUM over the decision paths of `__call__` (expect is None x accept_any x accept_nonempty).
+Nothing of /repo is imported or executed; no input strings are pushed through the code.
 """
 import ast
 import itertools
-import re
+from re import _parser as sre_parse
+from re import _constants as sre_c
 
-from ..index import AnalysisError, walk_own, short
+from ..index import AnalysisError, walk_own, short, unparse, parent
 from .. import nf, lib
 from ..selftest import Mutant, Benign
-from ._c13_enum import Interp, Model, Obj, Sym, Native, Raised, Budget, describe
+from ._c13_enum import Interp, Model, Obj, Sym, Raised, Budget
 from . import _c13_regex as rx
+from . import _c13_nfx as X
 
 ID = 'C18'
 SGF = 'mitxgraders/stringgrader.py'
 FILES = [SGF]
 
 EXPLANATION = (
-    "(D1) clean_input, evaluated by the checker's bounded evaluator under all 16 combinations of the four "
-    "cleaning flags on probe strings covering both letter cases, digits, punctuation, non-ASCII letters, space, "
-    "TAB, CR, LF, CRLF, LFCR and other white space, equals the reference pipeline of Appendix A9 (line breaks and "
-    "tabs to spaces; case folded iff not case_sensitive; ends trimmed iff strip; spaces deleted iff strip_all; runs "
-    "collapsed iff clean_spaces; nothing else); (D2) check_response grades correct exactly the submissions whose "
-    "cleaned form equals the cleaned expected string, under all 16 flag combinations, and returns the answer's own "
-    "ok/grade/msg; (D3) every validation test is a full-match construction over the author's pattern (regex term "
-    "analysis with the pattern as a hole), it is applied to the cleaned answer (ConfigError, only when not "
-    "accepting anything) and to the cleaned submission in every mode, and a failing submission follows "
-    "explain_validation; (D4) accept_any/accept_nonempty: minimum length (at least 1 for accept_nonempty) and "
-    "minimum word count on the cleaned submission, the word message wins, refusal follows explain_minimums; "
-    "construct_message's policy table ('err' raises InvalidInput, 'msg' or debug shows the message, None is a silent "
-    "zero); (D5) __call__ substitutes '' for a missing expect exactly in the accept modes.")
-NOT_DECIDED = ("Python's str/re semantics (trusted model); inputs outside the probe set; the wording of messages; "
-               "ItemGrader.__call__'s handling of the answers list (C08/C11).")
-ASSUMPTIONS = ["str methods and the stdlib re module behave as documented (they are the evaluation model for string values)",
+    "(D1, TABLE/NF) clean_input is extracted as an ordered pipeline of (guard, transform) terms by walking its body "
+    "along the working variable and compared with the table of Appendix A9: replace(x, ' ') for x in {TAB, CR LF, LF CR, "
+    "CR, LF} unguarded, lower() iff not case_sensitive, strip() iff strip, replace(' ', '') iff strip_all, collapse of "
+    "space runs (re.sub whose regex term is a run of >= 1 or >= 2 spaces, or the equivalent while-loop) iff clean_spaces; "
+    "no other transform; precedence pairs: two-character line breaks before CR and LF, every line-break/tab mapping "
+    "before strip_all and before the collapse; (D2, ROLE) the two compared strings are self.clean_input(answer['expect']) "
+    "and self.clean_input(student_input) and neither raw value is used otherwise; (D3, REGEX construction) every test "
+    "over config['validation_pattern'] is a full-match construction (the pattern is a hole standing for an arbitrary "
+    "regex) applied to a cleaned string, once for the answer and once for the submission; (D3/D4, ENUM over extracted "
+    "decision paths) over the complete domain of the branch atoms of check_response the selected leaf is the one the "
+    "property prescribes: ConfigError for an answer failing the pattern (not in accept modes), refusal through "
+    "construct_message(invalid_msg, explain_validation) for a submission failing it (every mode), answer's own record "
+    "iff the cleaned strings are equal, zero record otherwise, accept modes: refusal through "
+    "construct_message(., explain_minimums) iff len < min_length (raised to 1 iff accept_nonempty and min_length == 0) "
+    "or words < min_words, the word message winning; the word count is len(<cleaned>.split()) without separator; "
+    "construct_message's policy table over ('err','msg',None) x debug; (D5) __call__ passes '' for a missing expect "
+    "exactly in the accept modes.")
+NOT_DECIDED = ("Python's str/re semantics themselves (trusted: str.replace/lower/strip/split, re.sub, re.fullmatch); the "
+               "wording of messages; ItemGrader.__call__'s handling of the answers list (C08/C11).")
+ASSUMPTIONS = ["str.strip() removes TAB/CR/LF as white space, hence strip commutes with the line-break mapping (no precedence pair needed)",
                "cleaned strings contain no line breaks, so `$` and `\\Z` coincide in a full-match construction"]
 
 SG = 'mitxgraders.stringgrader.StringGrader'
 
 
 def check(ctx):
-    idx = ctx.index
-    d1_clean(ctx, idx)
-    d2_equal(ctx, idx)
-    d3_construction(ctx, idx)
-    d3_validation(ctx, idx)
-    d4_minimums(ctx, idx)
-    d4_policy(ctx, idx)
-    d5_call(ctx, idx)
+    _run_all(ctx, ctx.index, [d1_pipeline, d2_roles, d3_construction, d34_decision, d4_words, d4_policy, d5_call])
 
 
-def _name(cls):
-    return cls.split('.')[-1] if isinstance(cls, str) else cls
-
-
-class Groups(object):
-    def __init__(self, rule, where):
-        self.rule = rule
-        self.where = where
-        self.groups = {}
-        self.order = []
-
-    def case(self, group, ok, scenario, expected, found):
-        g = self.groups.setdefault(group, {'n': 0, 'bad': []})
-        if group not in self.order:
-            self.order.append(group)
-        g['n'] += 1
-        if not ok:
-            g['bad'].append((scenario, expected, found))
-
-    def flush(self):
-        for group in self.order:
-            g = self.groups[group]
-            if g['bad']:
-                sc, exp, fnd = g['bad'][0]
-                self.rule.violation(group, 'for %s the code gives %s, the property needs %s (%d of %d cases differ)'
-                                    % (sc, fnd, exp, len(g['bad']), g['n']), self.where, expected=str(exp), found=str(fnd))
-            else:
-                self.rule.ok(group, '%d cases agree with the reference' % g['n'], self.where)
-
-
-def outcome(fn):
-    try:
-        return ('ret', fn())
-    except Raised as r:
-        return ('raise', _name(r.cls), r.eargs)
-    except Budget:
-        return ('loop', None)
-
-
-def show(res):
-    if res[0] == 'raise':
-        return 'raise %s' % res[1]
-    if res[0] == 'loop':
-        return 'no result within the step bound'
-    return 'returns %r' % (res[1],)
-
-
-# ------------------------------------------------------------------ reference (Appendix A9)
-def ref_clean(s, case_sensitive, strip, strip_all, clean_spaces):
-    s = str(s)
-    out = []
-    i = 0
-    while i < len(s):
-        if s[i:i + 2] in ('\r\n', '\n\r'):
-            out.append(' ')
-            i += 2
-        elif s[i] in '\t\r\n':
-            out.append(' ')
-            i += 1
-        else:
-            out.append(s[i])
-            i += 1
-    s = ''.join(out)
-    if not case_sensitive:
-        s = s.lower()
-    if strip:
-        s = s.strip()
-    if strip_all:
-        s = s.replace(' ', '')
-    if clean_spaces:
-        while '  ' in s:
-            s = s.replace('  ', ' ')
-    return s
-
-
-FLAGS = ('case_sensitive', 'strip', 'strip_all', 'clean_spaces')
-DEFAULTS = {'case_sensitive': True, 'strip': True, 'strip_all': False, 'clean_spaces': True,
-            'accept_any': False, 'accept_nonempty': False, 'min_length': 0, 'min_words': 0,
-            'explain_minimums': 'err', 'validation_pattern': None, 'explain_validation': 'err',
-            'invalid_msg': 'NOT-IN-FORMAT', 'debug': False}
-
-PROBES = ['cat', ' Cat ', '  two  spaces  ', 'a\tb', 'a\r\nb', 'a\n\rb', 'a\rb', 'a\nb', 'a \n b', '\tx\n', 'MiXeD Case',
-          'Éa Ωb', 'a-b_c.d,e;f', "it's 42!", 'a\x0bb', 'a\u00a0b', '', ' ', 'a  \t  b', ' a\r\n b\n\rc\td ',
-          '  A  B  ', 'a   b', 'a    b', '12 34', 'x\r\r\ny', '\r\nab\r\n', 'tab\t\tTAB', 'a/b\\c', '(x) [y] {z}', 'q r']
-
-
-def flag_label(cfg):
-    return ', '.join('%s=%s' % (k, cfg[k]) for k in FLAGS)
-
-
-def grader(cfg, stubs=None):
-    c = dict(DEFAULTS)
-    c.update(cfg)
-    return Obj(SG, fields={'config': c}, stubs=stubs or {})
-
-
-def all_flags():
-    for vals in itertools.product((True, False), repeat=4):
-        yield dict(zip(FLAGS, vals))
+def _run_all(ctx, idx, fns):
+    """Run the rule functions; an unexpected failure inside the checker is an analysis error, never a crash."""
+    for f in fns:
+        try:
+            f(ctx, idx)
+        except AnalysisError:
+            raise
+        except Exception as e:      # pragma: no cover - defensive
+            ctx.rule('ENGINE.%s' % f.__name__, 'the checker could not finish this rule').undecided(
+                '<checker>', '%s: %s' % (type(e).__name__, e))
 
 
 # ----------------------------------------------------------------------------- D1
-def d1_clean(ctx, idx):
-    r = ctx.rule('D1.CLEAN', 'clean_input equals the reference cleaning pipeline under all 16 flag combinations', floor=6)
+FOREIGN_STR_METHODS = {'upper', 'casefold', 'lstrip', 'rstrip', 'title', 'capitalize', 'swapcase', 'expandtabs', 'translate',
+                       'removeprefix', 'removesuffix', 'center', 'ljust', 'rjust', 'zfill'}
+WS = {'\t': 'TAB', '\r\n': 'CR LF', '\n\r': 'LF CR', '\r': 'CR', '\n': 'LF'}
+
+
+class Step(object):
+    def __init__(self, guards, kind, args, node):
+        self.guards = frozenset(guards)
+        self.kind = kind          # replace | lower | strip | sub | loop-collapse | foreign
+        self.args = args
+        self.node = node
+
+    def __repr__(self):
+        return '%s%r if %s' % (self.kind, self.args, sorted(self.guards))
+
+
+def flag_literals(test):
+    """[(flag, polarity)] if the test is a conjunction of config-flag literals, else None."""
+    out = []
+    for c in nf.conjuncts(nf.canon(test)):
+        k = nf.config_key(c)
+        if k is not None:
+            out.append((k, True))
+            continue
+        if isinstance(c, ast.UnaryOp) and isinstance(c.op, ast.Not) and nf.config_key(c.operand) is not None:
+            out.append((nf.config_key(c.operand), False))
+            continue
+        return None
+    return out
+
+
+def extract_pipeline(idx, fi):
+    """Ordered list of Steps of clean_input, the working variable's initial expression, and the input parameter."""
+    fn = fi.node
+    param = fi.params[1]
+    state = {'w': None, 'init': None, 'returned': False}
+    steps = []
+
+    def touches(node):
+        return state['w'] is not None and X.mentions(node, state['w'])
+
+    def transforms_of(e, guards):
+        """Steps applied by expression e to the working variable (innermost first); None if e does not derive from it."""
+        w = state['w']
+        if isinstance(e, ast.Name):
+            return [] if e.id == w else None
+        if isinstance(e, ast.Call):
+            dotted = idx.dotted_of(fi.module, e.func)
+            if isinstance(e.func, ast.Name) and e.func.id == 'str' and len(e.args) == 1 and not e.keywords:
+                return transforms_of(e.args[0], guards)
+            if dotted == 're.sub':
+                if len(e.args) != 3 or e.keywords:
+                    if touches(e):
+                        raise AnalysisError('re.sub with flags/count on the working string: %s' % short(e))
+                    return None
+                base = transforms_of(e.args[2], guards)
+                if base is None:
+                    return None
+                p, r = lib.str_const(e.args[0]), lib.str_const(e.args[1])
+                if p is None or r is None:
+                    raise AnalysisError('re.sub with a non-literal pattern/replacement: %s' % short(e))
+                return base + [Step(guards, 'sub', (p, r), e)]
+            if isinstance(e.func, ast.Attribute):
+                base = transforms_of(e.func.value, guards)
+                if base is None:
+                    if any(touches(a) for a in e.args):
+                        raise AnalysisError('working string passed to `%s`' % short(e))
+                    return None
+                name = e.func.attr
+                consts = [lib.str_const(a) for a in e.args]
+                if name == 'replace' and len(e.args) == 2 and not e.keywords and None not in consts:
+                    return base + [Step(guards, 'replace', tuple(consts), e)]
+                if name == 'lower' and not e.args and not e.keywords:
+                    return base + [Step(guards, 'lower', (), e)]
+                if name == 'strip' and not e.args and not e.keywords:
+                    return base + [Step(guards, 'strip', (), e)]
+                if name in FOREIGN_STR_METHODS or name in ('strip', 'replace', 'lower'):
+                    text = '.%s(%s)' % (name, ', '.join(short(a, 20) for a in e.args))
+                    return base + [Step(guards, 'foreign', (text,), e)]
+                raise AnalysisError('method .%s applied to the working string is not a known string transform' % name)
+            if touches(e):
+                raise AnalysisError('working string passed to `%s`' % short(e))
+            return None
+        if touches(e):
+            raise AnalysisError('expression over the working string not recognised: %s' % short(e))
+        return None
+
+    def walk(stmts, guards):
+        for s in stmts:
+            if state['returned']:
+                raise AnalysisError('statements after the return of clean_input')
+            if isinstance(s, ast.Expr):
+                continue
+            if isinstance(s, ast.Assign) and len(s.targets) == 1 and isinstance(s.targets[0], ast.Name):
+                t = s.targets[0].id
+                if state['w'] is None:
+                    if X.mentions(s.value, param):
+                        if guards:
+                            raise AnalysisError('working string initialised under a condition')
+                        state['w'], state['init'] = t, s.value
+                    continue
+                if t == state['w']:
+                    tr = transforms_of(s.value, guards)
+                    if tr is None:
+                        raise AnalysisError('working string overwritten by `%s`' % short(s.value))
+                    steps.extend(tr)
+                    continue
+                if touches(s.value):
+                    raise AnalysisError('working string copied into `%s`' % t)
+                continue
+            if isinstance(s, ast.If):
+                lits = flag_literals(s.test)
+                body_touch = any(touches(x) for x in s.body + s.orelse)
+                if lits is None:
+                    if body_touch:
+                        raise AnalysisError('transform guarded by an unrecognised condition: %s' % short(s.test))
+                    continue
+                walk(s.body, guards + lits)
+                if s.orelse:
+                    if len(lits) != 1:
+                        if any(touches(x) for x in s.orelse):
+                            raise AnalysisError('else-branch of a compound guard')
+                        continue
+                    walk(s.orelse, guards + [(lits[0][0], not lits[0][1])])
+                continue
+            if isinstance(s, ast.While):
+                w = state['w']
+                if w is not None and X.m("'  ' in %s" % w, s.test) is not None and len(s.body) == 1 and \
+                        X.m(X.spat("%s = %s.replace('  ', ' ')" % (w, w)), s.body[0]) is not None and not s.orelse:
+                    steps.append(Step(guards, 'loop-collapse', (), s))
+                    continue
+                if touches(s):
+                    raise AnalysisError('loop over the working string not recognised: %s' % short(s.test))
+                continue
+            if isinstance(s, ast.Return):
+                if guards:
+                    raise AnalysisError('conditional return in clean_input')
+                if s.value is None or state['w'] is None:
+                    raise AnalysisError('clean_input returns nothing recognisable')
+                tr = transforms_of(s.value, guards)
+                if tr is None:
+                    raise AnalysisError('clean_input returns `%s`, not the working string' % short(s.value))
+                steps.extend(tr)
+                state['returned'] = True
+                continue
+            if touches(s):
+                raise AnalysisError('statement over the working string not recognised: %s' % short(s))
+    walk(fn.body, [])
+    if state['w'] is None or not state['returned']:
+        raise AnalysisError('clean_input: working string / return not found')
+    return steps, state['init'], param
+
+
+def space_run(pattern):
+    """('run', lo, hi) if the regex matches exactly runs of lo..hi spaces; ('other', why) for a regex over other
+    characters; None if not analysable."""
+    try:
+        tree = sre_parse.parse(pattern)
+    except Exception:
+        return None
+    flag = {'other': False}
+    INF = sre_c.MAXREPEAT
+
+    def add(a, b):
+        return INF if (a == INF or b == INF) else a + b
+
+    def mul(a, b):
+        if a == 0 or b == 0:
+            return 0
+        return INF if (a == INF or b == INF) else a * b
+
+    def run(items):
+        lo = hi = 0
+        for op, av in items:
+            if op is sre_c.LITERAL:
+                if av != 32:
+                    flag['other'] = True
+                lo, hi = lo + 1, add(hi, 1)
+            elif op is sre_c.IN:
+                if not (len(av) == 1 and av[0] == (sre_c.LITERAL, 32)):
+                    flag['other'] = True
+                lo, hi = lo + 1, add(hi, 1)
+            elif op in (sre_c.MAX_REPEAT, sre_c.MIN_REPEAT):
+                a, b, sub = av
+                r = run(list(sub))
+                if r is None:
+                    return None
+                lo, hi = lo + a * r[0], add(hi, mul(b, r[1]))
+            elif op is sre_c.SUBPATTERN and not av[1] and not av[2]:
+                r = run(list(av[3]))
+                if r is None:
+                    return None
+                lo, hi = lo + r[0], add(hi, r[1])
+            elif op in (sre_c.CATEGORY, sre_c.ANY, sre_c.NOT_LITERAL):
+                flag['other'] = True
+                lo, hi = lo + 1, add(hi, 1)
+            else:
+                return None
+        return lo, hi
+    r = run(list(tree))
+    if r is None:
+        return None
+    if flag['other']:
+        return ('other', 'it matches characters other than the space')
+    return ('run', r[0], r[1])
+
+
+REFERENCE = [  # (step id, guard, description)
+    ('W:\t', frozenset(), "TAB -> space"),
+    ('W:\r\n', frozenset(), "CR LF -> space"),
+    ('W:\n\r', frozenset(), "LF CR -> space"),
+    ('W:\r', frozenset(), "CR -> space"),
+    ('W:\n', frozenset(), "LF -> space"),
+    ('LOWER', frozenset([('case_sensitive', False)]), "lower() iff not case_sensitive"),
+    ('STRIP', frozenset([('strip', True)]), "strip() iff strip"),
+    ('STRIPALL', frozenset([('strip_all', True)]), "replace(' ', '') iff strip_all"),
+    ('COLLAPSE', frozenset([('clean_spaces', True)]), "collapse runs of spaces iff clean_spaces"),
+]
+PRECEDENCE = [('W:\r\n', 'W:\r'), ('W:\r\n', 'W:\n'), ('W:\n\r', 'W:\r'), ('W:\n\r', 'W:\n')] + \
+             [(w, later) for w in ('W:\t', 'W:\r\n', 'W:\n\r', 'W:\r', 'W:\n') for later in ('STRIPALL', 'COLLAPSE')]
+
+
+def classify_step(st):
+    """(step id | None, violation text | None)."""
+    if st.kind == 'replace':
+        old, new = st.args
+        if old in WS:
+            if new == ' ':
+                return 'W:' + old, None
+            return None, '%s is replaced by %r instead of a space' % (WS[old], new)
+        if (old, new) == (' ', ''):
+            return 'STRIPALL', None
+        if (old, new) == ('  ', ' '):
+            return None, ("a single pass of replace('  ', ' ') is not the collapse of space runs: a run of three or more "
+                          "spaces keeps more than one space")
+        return None, 'replace(%r, %r) alters a character the property never alters' % (old, new)
+    if st.kind == 'lower':
+        return 'LOWER', None
+    if st.kind == 'strip':
+        return 'STRIP', None
+    if st.kind == 'loop-collapse':
+        return 'COLLAPSE', None
+    if st.kind == 'sub':
+        p, r = st.args
+        sr = space_run(p)
+        if sr is None:
+            raise AnalysisError('re.sub pattern %r not analysable' % p)
+        if sr[0] == 'other':
+            return None, 're.sub(%r, %r, .) is not the collapse of space runs: %s' % (p, r, sr[1])
+        _, lo, hi = sr
+        if hi != sre_c.MAXREPEAT or lo not in (1, 2):
+            return None, ('re.sub(%r, ...) rewrites runs of %d..%s spaces, not every run of two or more'
+                          % (p, lo, 'inf' if hi == sre_c.MAXREPEAT else hi))
+        if r != ' ':
+            return None, 'runs of spaces are replaced by %r instead of one space' % r
+        return 'COLLAPSE', None
+    if st.kind == 'foreign':
+        return None, '%s is not a transform of the cleaning pipeline' % st.args[0]
+    raise AnalysisError('step kind %s' % st.kind)
+
+
+def d1_pipeline(ctx, idx):
+    r = ctx.rule('D1.PIPELINE', 'clean_input is exactly the guarded transform pipeline of Appendix A9 (steps, guards, '
+                 'precedence pairs that matter)', floor=11)
     with r:
         fi = idx.func(SG + '.clean_input')
         if len(fi.params) != 2:
             raise AnalysisError('clean_input: signature changed: %s' % fi.params)
-        G = Groups(r, fi.loc)
-        groups = {
-            'ws': 'clean_input: TAB, CR LF, LF CR, CR and LF each become one space (always)',
-            'case': 'clean_input: case is folded exactly when case_sensitive is off',
-            'strip': 'clean_input: leading/trailing white space is removed exactly when strip is on',
-            'strip_all': 'clean_input: all spaces are removed exactly when strip_all is on',
-            'clean_spaces': 'clean_input: runs of spaces collapse to one exactly when clean_spaces is on',
-            'other': 'clean_input: no other character is altered',
-        }
-        for flags in all_flags():
-            for s in PROBES:
-                it = Interp(idx, Model(), max_steps=5000)
-                res = outcome(lambda: it.call_function(fi, [s], self_obj=grader(flags)))
-                want = ref_clean(s, **flags)
-                ok = res[0] == 'ret' and res[1] == want
-                g = groups[_blame(s, flags, res[1] if res[0] == 'ret' else None, want)] if not ok else groups[_topic(s, flags)]
-                G.case(g, ok, 'input %r with %s' % (s, flag_label(flags)), repr(want), show(res))
-        G.flush()
+        steps, init, param = extract_pipeline(idx, fi)
+        ok_init = X.any_match(['str(%s)' % param, param], init) is not None
+        r.check(ok_init, 'clean_input: starts from the given input', 'str(%s)' % param,
+                'the working string starts as `%s`, not as the input' % short(init), lib.loc(fi, init))
+        found = {}
+        for i, st in enumerate(steps):
+            sid, bad = classify_step(st)
+            if bad:
+                r.violation('clean_input: `%s`' % short(st.node, 60), bad + ' (applied %s)' % _guard_text(st.guards),
+                            lib.loc(fi, st.node), expected='only the transforms of Appendix A9', found=short(st.node, 60))
+                continue
+            found.setdefault(sid, []).append((i, st))
+        for sid, guard, text in REFERENCE:
+            construct = 'clean_input: %s' % text
+            if sid not in found:
+                r.violation(construct, 'the step is missing from the pipeline', fi.loc, expected=text)
+                continue
+            for i, st in found[sid]:
+                g = st.guards
+                extra_ok = sid == 'COLLAPSE' and g == guard | {('strip_all', False)} and 'STRIPALL' in found and \
+                    max(j for j, _ in found['STRIPALL']) < i       # `elif clean_spaces` after strip_all: nothing left to collapse
+                if g == guard or extra_ok:
+                    r.ok(construct, 'applied %s' % _guard_text(g), lib.loc(fi, st.node))
+                else:
+                    inverted = {(k, not v) for k, v in guard} == set(g)
+                    r.violation(construct, 'the step is applied %s, the property needs it %s%s' % (
+                        _guard_text(g), _guard_text(guard), ' (guard inverted)' if inverted else ''), lib.loc(fi, st.node),
+                        expected=_guard_text(guard), found=_guard_text(g))
+        bad_pairs = []
+        for a, b in PRECEDENCE:
+            if a in found and b in found:
+                if max(i for i, _ in found[a]) > min(i for i, _ in found[b]):
+                    bad_pairs.append((a, b))
+        names = dict((sid, text) for sid, _, text in REFERENCE)
+        r.check(not bad_pairs, 'clean_input: order of the steps', '%d precedence pairs hold' % len(PRECEDENCE),
+                'step order changes results: %s' % '; '.join('`%s` must precede `%s`' % (names[a], names[b]) for a, b in bad_pairs[:3])
+                + ' (a CR LF pair would become two spaces / a line break would survive strip_all or split a collapsed run)',
+                fi.loc)
 
 
-def _topic(s, flags):
-    if any(c in s for c in '\t\r\n'):
-        return 'ws'
-    if s != s.lower() and not flags['case_sensitive']:
-        return 'case'
-    if s != s.strip() and flags['strip']:
-        return 'strip'
-    if ' ' in s and flags['strip_all']:
-        return 'strip_all'
-    if '  ' in s and flags['clean_spaces']:
-        return 'clean_spaces'
-    return 'other'
+def _guard_text(g):
+    if not g:
+        return 'unconditionally'
+    return 'iff ' + ' and '.join(('%s' if v else 'not %s') % k for k, v in sorted(g))
 
 
-def _blame(s, flags, got, want):
-    """Which clause of the pipeline a differing result most plausibly belongs to (for the report only)."""
-    if not isinstance(got, str):
-        return _topic(s, flags)
-    for key in ('case_sensitive', 'strip', 'strip_all', 'clean_spaces'):
-        f2 = dict(flags)
-        f2[key] = not f2[key]
-        if ref_clean(s, **f2) == got:
-            return {'case_sensitive': 'case', 'strip': 'strip', 'strip_all': 'strip_all', 'clean_spaces': 'clean_spaces'}[key]
-    if any(c in s for c in '\t\r\n'):
-        return 'ws'
-    return 'other'
+# ----------------------------------------------------------------------------- D2 (roles)
+S_CLEAN = "self.clean_input(student_input)"
+E_CLEAN = "self.clean_input(answer['expect'])"
 
 
-# ----------------------------------------------------------------------------- D2
-ANSWER = {'expect': None, 'ok': True, 'grade_decimal': 1, 'msg': 'well done'}
-PARTIAL_ANSWER = {'expect': None, 'ok': 'partial', 'grade_decimal': 0.5, 'msg': 'half'}
-WRONG = {'ok': False, 'grade_decimal': 0, 'msg': ''}
-
-PAIRS = [('cat', 'cat'), ('cat', ' cat '), ('cat', 'Cat'), ('cat', 'c at'), ('cat', 'cot'), ('two words', 'two  words'),
-         ('two words', 'two\twords'), ('two words', 'two\r\nwords'), ('two words', 'twowords'), ('two words', 'two words.'),
-         (' Pad ', 'pad'), ('A  b', 'a b'), ('x', 'x\n'), ('x y', 'x\r\ny'), ('x  y', 'x \n y'), ('Été', 'été'),
-         ('a-b', 'a b'), ('a b', 'a b'), ('', ' '), ('cat', '')]
-
-
-def run_check(idx, fi, cfg, answer, student):
-    it = Interp(idx, Model(), max_steps=20000)
-    return outcome(lambda: it.call_function(fi, [dict(answer), student], self_obj=grader(cfg)))
+def subject(e):
+    """('S'|'E', cleaned?) for an expression denoting the submission / the expected string, else None."""
+    if X.m(S_CLEAN, e) is not None:
+        return 'S', True
+    if X.m(E_CLEAN, e) is not None:
+        return 'E', True
+    if X.any_match(['student_input', 'str(student_input)'], e) is not None:
+        return 'S', False
+    if X.any_match(["answer['expect']", "str(answer['expect'])"], e) is not None:
+        return 'E', False
+    return None
 
 
-def correct_result(answer):
-    return {'ok': answer['ok'], 'grade_decimal': answer['grade_decimal'], 'msg': answer['msg']}
-
-
-def d2_equal(ctx, idx):
-    r = ctx.rule('D2.EQUAL', 'a submission is graded correct exactly when it equals the expected string after the '
-                 'configured cleaning of both', floor=3)
+def d2_roles(ctx, idx):
+    r = ctx.rule('D2.ROLE', "the compared strings are clean_input(answer['expect']) and clean_input(student_input); the raw "
+                 "values are used in no other way", floor=5)
     with r:
         fi = idx.func(SG + '.check_response')
         if fi.params[:3] != ['self', 'answer', 'student_input']:
             raise AnalysisError('check_response: signature changed: %s' % fi.params)
-        G = Groups(r, fi.loc)
-        g_ok = 'check_response: equal after cleaning => the answer\'s own ok / grade_decimal / msg'
-        g_no = 'check_response: different after cleaning => zero result'
-        g_both = 'check_response: the expected string and the submission are cleaned alike'
-        for flags in all_flags():
-            for expect, student in PAIRS:
-                for a, b in ((expect, student), (student, expect)):
-                    same = ref_clean(a, **flags) == ref_clean(b, **flags)
-                    for base in ((ANSWER, PARTIAL_ANSWER) if all(flags[k] == DEFAULTS[k] for k in FLAGS) else (ANSWER,)):
-                        ans = dict(base)
-                        ans['expect'] = a
-                        res = run_check(idx, fi, flags, ans, b)
-                        want = correct_result(ans) if same else WRONG
-                        ok = res[0] == 'ret' and res[1] == want
-                        # which side was (not) cleaned? raw equality differs from cleaned equality
-                        g = g_ok if same else g_no
-                        if not ok and res[0] == 'ret' and (a == b) != same:
-                            g = g_both
-                        G.case(g, ok, 'expect %r, submission %r, %s' % (a, b, flag_label(flags)), repr(want), show(res))
-        G.case(g_both, True, 'symmetry', '', '')
-        G.flush()
+        # the deciding comparison
+        comps = []
+        for n in walk_own(fi.node):
+            if isinstance(n, ast.Compare) and len(n.ops) == 1 and isinstance(n.ops[0], (ast.Eq, ast.NotEq)):
+                a = subject(lib.inline_locals(n.left, fi.node))
+                b = subject(lib.inline_locals(n.comparators[0], fi.node))
+                if a is not None and b is not None:
+                    comps.append((n, a, b))
+        if len(comps) != 1:
+            raise AnalysisError('check_response: expected one comparison of the submission with the expected string, found %d'
+                                % len(comps))
+        n, a, b = comps[0]
+        where = lib.loc(fi, n)
+        r.check({a[0], b[0]} == {'S', 'E'}, 'check_response: equality test compares submission and expected string',
+                'student vs expect', 'the equality test `%s` does not compare the submission with the expected string' % short(n), where)
+        for who, cleaned in (a, b):
+            label = 'submission' if who == 'S' else 'expected string'
+            r.check(cleaned, 'check_response: the %s is cleaned before the comparison' % label, 'self.clean_input(...)',
+                    'the %s enters the comparison `%s` without clean_input: cleaning is applied to one side only, so e.g. '
+                    'padded or differently-cased input no longer matches' % (label, short(n)), where,
+                    expected=S_CLEAN if who == 'S' else E_CLEAN)
+        # every use of the raw values goes through clean_input (or into an error message)
+        bad = []
+        for x in walk_own(fi.node):
+            if isinstance(x, ast.Name) and x.id == 'student_input' and isinstance(x.ctx, ast.Load):
+                p = parent(x)
+                if not (isinstance(p, ast.Call) and nf.callee_name(p) == 'clean_input' and p.args and p.args[0] is x):
+                    bad.append(x)
+            if isinstance(x, ast.Subscript) and isinstance(x.ctx, ast.Load) and X.m("answer['expect']", x) is not None:
+                p = parent(x)
+                if isinstance(p, ast.Call) and nf.callee_name(p) == 'clean_input' and p.args and p.args[0] is x:
+                    continue
+                if any(isinstance(a_, ast.Raise) for a_ in _ancestors_until_stmt(x)):
+                    continue
+                st = lib.enclosing_stmt(x)
+                if isinstance(st, ast.Assign) and len(st.targets) == 1 and isinstance(st.targets[0], ast.Name) and \
+                        _only_in_raise(fi.node, st.targets[0].id):
+                    continue
+                bad.append(x)
+        r.check(not bad, 'check_response: raw submission / expected string only feed clean_input',
+                'every use is the argument of self.clean_input (or an error message)',
+                'the uncleaned %s is used in `%s`: minimums / validation / comparison must see the cleaned string'
+                % (('submission' if isinstance(bad[0], ast.Name) else 'expected string') if bad else '',
+                   short(lib.enclosing_stmt(bad[0]), 70) if bad else ''), lib.loc(fi, bad[0]) if bad else fi.loc)
+        # clean_input is StringGrader's own
+        calls = lib.calls_named(fi.node, 'clean_input')
+        targets = set()
+        for c in calls:
+            ts, how = idx.resolve_call(fi, c)
+            targets |= {getattr(t, 'qualname', str(t)) for t in ts}
+        r.check(targets == {SG + '.clean_input'}, 'check_response: clean_input resolves to StringGrader.clean_input',
+                '%d call sites' % len(calls), 'clean_input resolves to %s' % sorted(targets), fi.loc)
+
+
+def _ancestors_until_stmt(x):
+    p = parent(x)
+    while p is not None:
+        yield p
+        if isinstance(p, ast.stmt):
+            return
+        p = parent(p)
+
+
+def _only_in_raise(fn, name):
+    for n in walk_own(fn):
+        if isinstance(n, ast.Name) and n.id == name and isinstance(n.ctx, ast.Load):
+            if not any(isinstance(a, ast.Raise) for a in _ancestors_until_stmt(n)):
+                return False
+    return True
 
 
 # ----------------------------------------------------------------------------- D3 (construction)
 REGEX_FUNCS = {'re.fullmatch': 'fullmatch', 're.match': 'match', 're.search': 'search'}
 
 
+def regex_tests(idx, fi):
+    """[(call, method, pattern expr, subject expr)] of regular-expression tests in the function."""
+    env = lib.local_env(fi.node)
+    out = []
+    for call in [c for c in walk_own(fi.node) if isinstance(c, ast.Call)]:
+        dotted = idx.dotted_of(fi.module, call.func)
+        if dotted in REGEX_FUNCS and len(call.args) >= 2:
+            if len(call.args) > 2 or call.keywords:
+                raise AnalysisError('regular-expression test with flags: %s' % short(call))
+            out.append((call, REGEX_FUNCS[dotted], call.args[0], call.args[1]))
+        elif isinstance(call.func, ast.Attribute) and call.func.attr in ('fullmatch', 'match', 'search') and call.args:
+            recv = call.func.value
+            if isinstance(recv, ast.Name) and recv.id in env:
+                recv = env[recv.id]
+            if isinstance(recv, ast.Call) and idx.dotted_of(fi.module, recv.func) == 're.compile' and recv.args:
+                if len(recv.args) > 1 or recv.keywords or len(call.args) > 1 or call.keywords:
+                    raise AnalysisError('re.compile / match with flags or positions: %s' % short(call))
+                out.append((call, call.func.attr, recv.args[0], call.args[0]))
+    return out
+
+
 def d3_construction(ctx, idx):
-    r = ctx.rule('D3.FULLMATCH', "every validation test is a full-match construction over the author's pattern "
-                 "(re.fullmatch(pattern, s), or re.match on the grouped pattern followed by an end anchor)", floor=2)
+    r = ctx.rule('D3.FULLMATCH', "every validation test is a full-match construction over the author's pattern, applied to "
+                 "the cleaned answer and to the cleaned submission", floor=4)
     with r:
         fi = idx.func(SG + '.check_response')
-        env = lib.local_env(fi.node)
 
         def is_hole(e):
             return 'validation_pattern' if lib.is_config(e, 'validation_pattern') else None
-
-        def compiled_from(e):
-            """pattern expression if e is (a local bound to) re.compile(P)."""
-            if isinstance(e, ast.Name) and e.id in env:
-                e = env[e.id]
-            if isinstance(e, ast.Call) and idx.dotted_of(fi.module, e.func) == 're.compile' and e.args:
-                return e.args[0]
-            return None
-
+        seen = []
         n = 0
-        for call in [c for c in walk_own(fi.node) if isinstance(c, ast.Call)]:
-            dotted = idx.dotted_of(fi.module, call.func)
-            method = pat = None
-            if dotted in REGEX_FUNCS and call.args:
-                method, pat = REGEX_FUNCS[dotted], call.args[0]
-            elif isinstance(call.func, ast.Attribute) and call.func.attr in ('fullmatch', 'match', 'search'):
-                p = compiled_from(call.func.value)
-                if p is not None:
-                    method, pat = call.func.attr, p
-            if method is None:
-                continue
+        for call, method, pat, subj in regex_tests(idx, fi):
             try:
                 parts = rx.fold(pat, fi.node, is_hole)
             except AnalysisError as e:
@@ -304,228 +532,355 @@ def d3_construction(ctx, idx):
                 continue
             n += 1
             verdict, why = rx.classify_fullmatch(method, parts)
-            construct = 'check_response: validation test #%d' % n
+            who = subject(lib.inline_locals(subj, fi.node))
+            label = {'S': 'submission', 'E': 'answer', None: 'string'}[who[0] if who else None]
+            construct = 'check_response: validation of the %s' % label
             if verdict == rx.FULL:
-                r.ok(construct, why, lib.loc(fi, call))
+                r.ok(construct + ' [full match]', why, lib.loc(fi, call))
             elif verdict == rx.PARTIAL:
-                r.violation(construct, "`%s` is not a full match of the author's pattern: %s. The property needs the pattern to "
-                            "match the entire cleaned string" % (short(call, 70), why), lib.loc(fi, call),
+                r.violation(construct + ' [full match]', "`%s` is not a full match of the author's pattern: %s. The property needs "
+                            "the pattern to match the entire cleaned string" % (short(call, 70), why), lib.loc(fi, call),
                             expected='re.fullmatch(pattern, s)', found='re.%s(%s, s)' % (method, rx.render(parts)))
             else:
-                r.undecided(construct, why, lib.loc(fi, call))
+                r.undecided(construct + ' [full match]', why, lib.loc(fi, call))
+            if who is None:
+                r.undecided(construct + ' [subject]', 'validated expression not recognised: %s' % short(subj), lib.loc(fi, call))
+            else:
+                seen.append(who[0])
+                r.check(who[1], construct + ' [subject]', 'the cleaned string',
+                        'the pattern is applied to the uncleaned %s (`%s`): the property validates the cleaned string'
+                        % (label, short(subj)), lib.loc(fi, call))
         if n == 0:
             raise AnalysisError("no regular-expression test over config['validation_pattern'] found in check_response")
+        if seen and sorted(set(seen)) != ['E', 'S']:
+            r.violation('check_response: validation covers answer and submission',
+                        'the validation pattern is applied to %s only' % ('the submission' if 'S' in seen else 'the answer'), fi.loc)
 
 
-# ----------------------------------------------------------------------------- D3 (behaviour)
-def refusal(policy, debug, message_ok):
-    """Expected outcome class of construct_message."""
-    if policy == 'err':
-        return 'raise InvalidInput'
-    if policy == 'msg' or debug:
-        return 'zero result with the message'
-    return 'silent zero result'
+# ----------------------------------------------------------------------------- D3/D4 (decision)
+WRONG_REC = {'ok': 'False', 'grade_decimal': '0', 'msg': "''"}
+CORRECT_REC = {'ok': "answer['ok']", 'grade_decimal': "answer['grade_decimal']", 'msg': "answer['msg']"}
 
 
-def classify_refusal(res, is_message):
-    """Map an outcome to the refusal classes above (or describe it)."""
-    if res[0] == 'raise':
-        if res[1] == 'InvalidInput':
-            return 'raise InvalidInput' if (res[2] and is_message(res[2][0])) else 'raise InvalidInput with another message'
-        return 'raise %s' % res[1]
-    if res[0] != 'ret' or not isinstance(res[1], dict):
-        return show(res)
-    d = res[1]
-    if d.get('ok') is False and d.get('grade_decimal') == 0 and set(d) == {'ok', 'grade_decimal', 'msg'}:
-        if d['msg'] == '':
-            return 'silent zero result'
-        if is_message(d['msg']):
-            return 'zero result with the message'
-        return 'zero result with another message (%r)' % (d['msg'],)
-    return show(res)
+def make_guards(idx, fi):
+    def is_pattern(e):
+        return any(lib.is_config(x, 'validation_pattern') for x in ast.walk(e))
+
+    def regex_subject(e):
+        """'S'/'E' if e is a regular-expression test over the validation pattern, else None."""
+        if not isinstance(e, ast.Call):
+            return None
+        dotted = idx.dotted_of(fi.module, e.func)
+        if dotted in REGEX_FUNCS and len(e.args) >= 2 and is_pattern(e.args[0]):
+            s = subject(e.args[1])
+            return s[0] if s else None
+        if isinstance(e.func, ast.Attribute) and e.func.attr in ('fullmatch', 'match', 'search') and e.args \
+                and isinstance(e.func.value, ast.Call) and idx.dotted_of(fi.module, e.func.value.func) == 're.compile' \
+                and e.func.value.args and is_pattern(e.func.value.args[0]):
+            s = subject(e.args[0])
+            return s[0] if s else None
+        return None
+
+    def none_test(e):
+        """(operand, positive?) for `x is None` / `x == None` / negations."""
+        if isinstance(e, ast.Compare) and len(e.ops) == 1 and isinstance(e.comparators[0], ast.Constant) \
+                and e.comparators[0].value is None:
+            if isinstance(e.ops[0], (ast.Is, ast.Eq)):
+                return e.left, True
+            if isinstance(e.ops[0], (ast.IsNot, ast.NotEq)):
+                return e.left, False
+        return None
+
+    def atom(e):
+        k = nf.config_key(e)
+        if k in ('accept_any', 'accept_nonempty', 'debug'):
+            return lambda w, k=k: w[k]
+        nt = none_test(e)
+        if nt is not None:
+            operand, positive = nt
+            if lib.is_config(operand, 'validation_pattern'):
+                return lambda w: w['pattern_none'] == positive
+            who = regex_subject(operand)
+            if who is not None:
+                key = 's_match' if who == 'S' else 'e_match'
+                return lambda w: (not w[key]) == positive
+            return None
+        who = regex_subject(e)
+        if who is not None:
+            key = 's_match' if who == 'S' else 'e_match'
+            return lambda w: w[key]
+        if isinstance(e, ast.Compare) and len(e.ops) == 1 and isinstance(e.ops[0], (ast.Eq, ast.NotEq)):
+            a, b = subject(e.left), subject(e.comparators[0])
+            if a and b and {a[0], b[0]} == {'S', 'E'}:
+                eq = isinstance(e.ops[0], ast.Eq)
+                return lambda w: w['equal'] == eq
+        return None
+
+    def term(e):
+        if isinstance(e, ast.Constant) and isinstance(e.value, int) and not isinstance(e.value, bool):
+            return lambda w, v=e.value: v
+        k = nf.config_key(e)
+        if k == 'min_length':
+            return lambda w: w['ml']
+        if k == 'min_words':
+            return lambda w: w['mw']
+        if isinstance(e, ast.Call) and isinstance(e.func, ast.Name) and e.func.id == 'len' and len(e.args) == 1:
+            a = e.args[0]
+            if subject(a) and subject(a)[0] == 'S':
+                return lambda w: w['len']
+            if isinstance(a, ast.Call) and isinstance(a.func, ast.Attribute) and a.func.attr == 'split' \
+                    and subject(a.func.value) and subject(a.func.value)[0] == 'S':
+                return lambda w: w['words']
+        if isinstance(e, ast.Call) and isinstance(e.func, ast.Name) and e.func.id in ('max', 'min') and len(e.args) == 2 \
+                and not e.keywords:
+            a, b = term(e.args[0]), term(e.args[1])
+            if a and b:
+                f = max if e.func.id == 'max' else min
+                return lambda w: f(a(w), b(w))
+        return None
+    return X.Guards(atom, term)
 
 
-MODES = [(False, False), (True, False), (False, True), (True, True)]
-PATTERNS = ['cat|dog', 'ca', '[a-z]+ [a-z]+', '^cat$', 'cat$|dog']
-VAL_PAIRS = [('cat', 'cat'), ('cat', 'dog'), ('dog', ' Dog '), ('cat', 'catfish'), ('cat', 'dogfish'), ('cat', 'hotdog'),
-             ('cat', 'ca'), ('cat', 'c'), ('one two', 'one two'), ('one two', 'one  two'), ('fish', 'fish'), ('fish', 'cat'),
-             ('catfish', 'catfish'), ('cat', ''), ('cat', 'cat\n')]
+def classify_leaf(p):
+    leaf = p.leaf
+    if leaf.kind == 'raise':
+        return ('raise', nf.exc_class_name(leaf.expr) if leaf.expr is not None else 're-raise')
+    if leaf.kind == 'fall':
+        return ('returns None',)
+    e = leaf.expr
+    if isinstance(e, ast.Dict):
+        if X.record_is(e, WRONG_REC):
+            return ('zero record',)
+        if X.record_is(e, CORRECT_REC):
+            return ("answer's record",)
+        return ('record %s' % short(e, 80),)
+    if isinstance(e, ast.Call) and nf.callee_name(e) == 'construct_message' and len(e.args) == 2 and not e.keywords:
+        msg, pol = e.args
+        pk = nf.config_key(pol)
+        if lib.is_config(msg, 'invalid_msg'):
+            mk = 'invalid_msg'
+        else:
+            words = [c for c in ast.walk(msg) if isinstance(c, ast.Call) and isinstance(c.func, ast.Attribute) and c.func.attr == 'split']
+            lens = [c for c in ast.walk(msg) if isinstance(c, ast.Call) and isinstance(c.func, ast.Name) and c.func.id == 'len']
+            mk = 'word-count message' if words else ('character-count message' if lens else 'message %s' % short(msg, 40))
+        return ('refuse', mk, pk or short(pol, 40))
+    return ('returns %s' % short(e, 80),)
 
 
-def d3_validation(ctx, idx):
-    r = ctx.rule('D3.VALIDATE', 'validation_pattern must match the whole cleaned answer (else ConfigError, unless accepting '
-                 'anything) and the whole cleaned submission (else explain_validation), in every mode', floor=4)
+def spec_outcome(w):
+    accept = w['accept_any'] or w['accept_nonempty']
+    if not w['pattern_none']:
+        if not accept and not w['e_match']:
+            return ('raise', 'ConfigError'), 'config'
+        if not w['s_match']:
+            return ('refuse', 'invalid_msg', 'explain_validation'), ('valid-accept' if accept else 'valid')
+    if not accept:
+        return (("answer's record",), 'equal') if w['equal'] else (('zero record',), 'differ')
+    need = max(w['ml'], 1) if w['accept_nonempty'] else w['ml']
+    if w['words'] < w['mw']:
+        return ('refuse', 'word-count message', 'explain_minimums'), ('wins' if w['len'] < need else 'words')
+    if w['len'] < need:
+        return ('refuse', 'character-count message', 'explain_minimums'), ('nonempty' if (w['accept_nonempty'] and w['ml'] == 0) else 'short')
+    return ("answer's record",), 'accepted'
+
+
+GROUPS = {
+    'config': 'check_response: an expected answer failing the pattern raises ConfigError (not in accept modes)',
+    'valid': 'check_response: a submission failing the pattern is refused through construct_message(invalid_msg, explain_validation)',
+    'valid-accept': 'check_response: the pattern applies in accept_any / accept_nonempty mode as well',
+    'equal': "check_response: equal after cleaning => the answer's own ok / grade_decimal / msg",
+    'differ': 'check_response: different after cleaning => zero record',
+    'accepted': 'check_response: accept modes accept every submission meeting both minimums',
+    'short': 'check_response: shorter than min_length => refused through construct_message(., explain_minimums)',
+    'nonempty': 'check_response: accept_nonempty raises a zero min_length to 1',
+    'words': 'check_response: fewer than min_words words => refused through construct_message(., explain_minimums)',
+    'wins': 'check_response: the word-count message wins over the character-count message',
+}
+DOMAIN = {'accept_any': [False, True], 'accept_nonempty': [False, True], 'pattern_none': [True, False],
+          'e_match': [True, False], 's_match': [True, False], 'equal': [True, False],
+          'len': [0, 1, 2, 3], 'ml': [0, 1, 2, 3], 'words': [0, 1, 2], 'mw': [0, 1, 2]}
+
+
+def world_text(w):
+    bits = ['accept_any=%s' % w['accept_any'], 'accept_nonempty=%s' % w['accept_nonempty'],
+            'validation_pattern %s' % ('is None' if w['pattern_none'] else 'given')]
+    if not w['pattern_none']:
+        bits += ['answer %s the pattern' % ('matches' if w['e_match'] else 'fails'),
+                 'submission %s the pattern' % ('matches' if w['s_match'] else 'fails')]
+    if not (w['accept_any'] or w['accept_nonempty']):
+        bits.append('cleaned strings %s' % ('equal' if w['equal'] else 'differ'))
+    else:
+        bits += ['len(cleaned) %s min_length%s' % (_rel(w['len'], w['ml']), ' = 0' if w['ml'] == 0 else (' = 1' if w['ml'] == 1 else ' >= 2')),
+                 'len(cleaned) %s 1' % _rel(w['len'], 1), 'words %s min_words' % _rel(w['words'], w['mw'])]
+    return ', '.join(bits)
+
+
+def _rel(a, b):
+    return '<' if a < b else ('=' if a == b else '>')
+
+
+def d34_decision(ctx, idx):
+    r = ctx.rule('D34.DECISION', "check_response's decision tree, over the complete domain of its branch atoms, selects the leaf "
+                 "the property prescribes", floor=10)
     with r:
         fi = idx.func(SG + '.check_response')
-        G = Groups(r, fi.loc)
-        g_cfg = 'check_response: an expected answer that fails the pattern raises ConfigError (not in accept modes)'
-        g_ref = 'check_response: a submission the pattern does not match entirely is refused as explain_validation prescribes'
-        g_pass = 'check_response: a submission the pattern matches entirely is graded as without the pattern'
-        g_any = 'check_response: the pattern applies in accept_any / accept_nonempty mode as well'
-        flags = {k: DEFAULTS[k] for k in FLAGS}
-        flags['case_sensitive'] = False
-        for (any_, nonempty) in MODES:
-            accept = any_ or nonempty
-            for pattern in PATTERNS:
-                for expect, student in VAL_PAIRS:
-                    E, S = ref_clean(expect, **flags), ref_clean(student, **flags)
-                    e_ok = re.fullmatch(pattern, E) is not None
-                    s_ok = re.fullmatch(pattern, S) is not None
-                    policies = [('err', False), ('msg', False), (None, False), (None, True)] if not s_ok else [('err', False)]
-                    for policy, debug in policies:
-                        cfg = dict(flags, accept_any=any_, accept_nonempty=nonempty, validation_pattern=pattern,
-                                   explain_validation=policy, debug=debug, explain_minimums='msg')
-                        ans = dict(ANSWER, expect=expect)
-                        res = run_check(idx, fi, cfg, ans, student)
-                        sc = 'pattern %r, expect %r, submission %r, accept_any=%s, accept_nonempty=%s, explain_validation=%r, debug=%s' % (
-                            pattern, expect, student, any_, nonempty, policy, debug)
-                        if not accept and not e_ok:
-                            G.case(g_cfg, res[0] == 'raise' and res[1] == 'ConfigError', sc, 'ConfigError', show(res))
-                            continue
-                        if not s_ok:
-                            want = refusal(policy, debug, True)
-                            got = classify_refusal(res, lambda m: m == 'NOT-IN-FORMAT')
-                            G.case(g_any if accept else g_ref, got == want, sc, want + ' (invalid_msg)', got)
-                            continue
-                        if accept:
-                            want = correct_result(ans) if (len(S) >= (1 if nonempty else 0)) else None
-                            if want is None:
-                                continue    # refused for the minimum length: D4's business
-                        else:
-                            want = correct_result(ans) if S == E else WRONG
-                        G.case(g_any if accept else g_pass, res[0] == 'ret' and res[1] == want, sc, repr(want), show(res))
-        G.flush()
+        paths = nf.decision_paths(fi.node.body)
+        guards = make_guards(idx, fi)
+        compiled = [([guards.compile(g) for g in p.guards], classify_leaf(p), p) for p in paths]
+        stats = {}
+        for w in X.worlds(DOMAIN):
+            if w['equal'] and w['e_match'] != w['s_match']:
+                continue          # equal strings cannot differ in matching
+            want, group = spec_outcome(w)
+            sel = [c for c in compiled if all(g(w) for g in c[0])]
+            if len(sel) != 1:
+                raise AnalysisError('decision paths are not exclusive/exhaustive (%d paths for one case)' % len(sel))
+            got = sel[0][1]
+            st = stats.setdefault(group, {'n': 0, 'bad': []})
+            st['n'] += 1
+            if got != want:
+                st['bad'].append((w, want, got, sel[0][2]))
+        for group in GROUPS:
+            st = stats.get(group)
+            if not st:
+                continue
+            if st['bad']:
+                w, want, got, p = st['bad'][0]
+                r.violation(GROUPS[group], 'for %s the decision tree ends in %s, the property needs %s (%d of %d cases differ)'
+                            % (world_text(w), _leaf_text(got), _leaf_text(want), len(st['bad']), st['n']),
+                            lib.loc(fi, p.leaf.stmt) if p.leaf.stmt is not None else fi.loc,
+                            expected=_leaf_text(want), found=_leaf_text(got))
+            else:
+                r.ok(GROUPS[group], '%d cases of the atom domain agree' % st['n'], fi.loc)
 
 
-# ----------------------------------------------------------------------------- D4
-STUDENTS = ['', ' ', 'a', ' a ', 'abc', 'one two', ' one  two ', 'a b c d e f g h i', 'x' * 45, 'two  w' + 'x' * 40, 'a\tb\nc']
+def _leaf_text(t):
+    if t[0] == 'raise':
+        return 'raise %s' % t[1]
+    if t[0] == 'refuse':
+        return 'construct_message(%s, %s)' % (t[1], t[2])
+    return t[0]
 
 
-def ints_in(text):
-    return {int(x) for x in re.findall(r'\d+', str(text))}
-
-
-def d4_minimums(ctx, idx):
-    r = ctx.rule('D4.MINIMUMS', 'accept modes: accepted exactly when the cleaned submission has min_length characters (at '
-                 'least 1 for accept_nonempty) and min_words words; refusal follows explain_minimums; the word message wins',
-                 floor=5)
+# ----------------------------------------------------------------------------- D4 (words term, policy)
+def d4_words(ctx, idx):
+    r = ctx.rule('D4.WORDS', 'the word count is len(<cleaned submission>.split()) with no separator argument', floor=1)
     with r:
         fi = idx.func(SG + '.check_response')
-        G = Groups(r, fi.loc)
-        g_acc = 'check_response: accept modes accept every submission that meets both minimums'
-        g_len = 'check_response: a submission shorter than min_length is refused as explain_minimums prescribes'
-        g_ne = 'check_response: accept_nonempty requires at least one character'
-        g_words = 'check_response: a submission with fewer than min_words words is refused as explain_minimums prescribes'
-        g_win = 'check_response: the word-count message takes precedence over the character-count message'
-        RAW = {'case_sensitive': True, 'strip': False, 'strip_all': False, 'clean_spaces': False}
-        grids = [({k: DEFAULTS[k] for k in FLAGS}, MODES[1:], (0, 1, 3, 40), (0, 1, 2, 9), STUDENTS, True),
-                 (RAW, MODES[1:2], (0, 3), (1, 2, 3), ['', ' ', ' a ', ' one  two ', 'a\tb\nc'], False)]
-        for flags, modes, lengths, wordcounts, students, all_policies in grids:
-            for (any_, nonempty), min_length, min_words, student in itertools.product(modes, lengths, wordcounts, students):
-                S = ref_clean(student, **flags)
-                need = max(min_length, 1) if nonempty else min_length
-                short_ = len(S) < need
-                few = len(S.split()) < min_words
-                policies = [('err', False), ('msg', False), (None, False), (None, True)] if ((short_ or few) and all_policies) \
-                    else [('err', False)]
-                for policy, debug in policies:
-                    cfg = dict(flags, accept_any=any_, accept_nonempty=nonempty, min_length=min_length,
-                               min_words=min_words, explain_minimums=policy, debug=debug, explain_validation='msg')
-                    ans = dict(PARTIAL_ANSWER, expect='' if policy == 'err' else 'whatever')
-                    res = run_check(idx, fi, cfg, ans, student)
-                    sc = ('submission %r, accept_any=%s, accept_nonempty=%s, min_length=%d, min_words=%d, '
-                          'explain_minimums=%r, debug=%s%s' % (student, any_, nonempty, min_length, min_words, policy, debug,
-                                                               '' if all_policies else ', ' + flag_label(flags)))
-                    if not short_ and not few:
-                        G.case(g_acc, res[0] == 'ret' and res[1] == correct_result(ans), sc, repr(correct_result(ans)), show(res))
-                        continue
-                    want = refusal(policy, debug, True)
-                    got = classify_refusal(res, lambda m: isinstance(m, str) and m != '')
-                    g = g_words if few else (g_ne if (nonempty and min_length == 0) else g_len)
-                    G.case(g, got == want, sc, want, got)
-                    # which message?
-                    if few and short_ and got == want and want != 'silent zero result':
-                        text = res[2][0] if res[0] == 'raise' else res[1]['msg']
-                        words_pair = {len(S.split()), min_words}
-                        chars_pair = {len(S), need}
-                        nums = ints_in(text)
-                        if words_pair != chars_pair and nums:
-                            if words_pair <= nums and not chars_pair <= nums:
-                                G.case(g_win, True, sc, '', '')
-                            elif chars_pair <= nums and not words_pair <= nums:
-                                G.case(g_win, False, sc, 'the message about the word count (%d/%d words)'
-                                       % (len(S.split()), min_words), 'the character-count message %r' % (text,))
-        if g_win not in G.groups:
-            raise AnalysisError('the messages for too-short responses no longer carry the counts; cannot tell which one wins')
-        G.flush()
+        n = 0
+        for c in walk_own(fi.node):
+            if isinstance(c, ast.Call) and isinstance(c.func, ast.Attribute) and c.func.attr == 'split':
+                s = subject(lib.inline_locals(c.func.value, fi.node))
+                if not s or s[0] != 'S':
+                    continue
+                n += 1
+                r.check(not c.args and not c.keywords, 'check_response: word count of the submission', '.split() on white space',
+                        "`%s` splits on an explicit separator: an empty string counts as one word and runs of spaces produce empty "
+                        "words, so submissions with fewer than min_words words are accepted" % short(c),
+                        lib.loc(fi, c), expected='.split()', found=short(c))
+        if n == 0:
+            raise AnalysisError('check_response: no word count (`.split`) of the submission found')
 
 
 def d4_policy(ctx, idx):
-    r = ctx.rule('D4.POLICY', "construct_message: 'err' raises InvalidInput(msg); 'msg' (or debug) returns a zero result with "
-                 "the message; None returns a silent zero result", floor=3)
+    r = ctx.rule('D4.POLICY', "construct_message over ('err','msg',None) x debug: 'err' raises InvalidInput(msg); 'msg' or debug "
+                 "returns the zero record carrying the message; None returns the silent zero record", floor=3)
     with r:
         fi = idx.func(SG + '.construct_message')
         if fi.params[:3] != ['self', 'msg', 'msg_type']:
             raise AnalysisError('construct_message: signature changed: %s' % fi.params)
-        G = Groups(r, fi.loc)
         names = {'err': "construct_message: 'err' raises InvalidInput carrying the message",
                  'msg': "construct_message: 'msg' (or debug mode) returns ok=False, grade 0 and the message",
                  None: 'construct_message: None (outside debug mode) returns ok=False, grade 0 and no message'}
+        results = {}
         for policy in ('err', 'msg', None):
             for debug in (False, True):
-                it = Interp(idx, Model(), max_steps=2000)
-                res = outcome(lambda: it.call_function(fi, ['THE-MESSAGE', policy], self_obj=grader({'debug': debug})))
-                want = refusal(policy, debug, True)
-                got = classify_refusal(res, lambda m: m == 'THE-MESSAGE')
+                MSG = Sym('MSG')
+                obj = Obj(SG, fields={'config': {'debug': debug}})
+                try:
+                    got = ('ret', Interp(idx, Model(), max_steps=2000).call_function(fi, [MSG, policy], self_obj=obj))
+                except Raised as e:
+                    got = ('raise', e.cls.split('.')[-1], e.eargs)
+                except Budget:
+                    got = ('loop',)
+                if policy == 'err':
+                    want = 'raise InvalidInput(msg)'
+                elif policy == 'msg' or debug:
+                    want = 'zero record with the message'
+                else:
+                    want = 'silent zero record'
+                if got[0] == 'raise':
+                    found = 'raise %s(%s)' % (got[1], 'msg' if (got[2] and got[2][0] is MSG) else '...')
+                elif got[0] == 'ret' and isinstance(got[1], dict) and set(got[1]) == {'ok', 'grade_decimal', 'msg'} \
+                        and got[1]['ok'] is False and got[1]['grade_decimal'] == 0:
+                    found = 'zero record with the message' if got[1]['msg'] is MSG else (
+                        'silent zero record' if got[1]['msg'] == '' else 'zero record with msg=%r' % (got[1]['msg'],))
+                else:
+                    found = 'returns %r' % (got[1],) if got[0] == 'ret' else 'no result'
                 g = names['msg'] if (policy is None and debug) else names[policy]
-                G.case(g, got == want, 'msg_type=%r, debug=%s' % (policy, debug), want, got)
-        G.flush()
+                results.setdefault(g, []).append((policy, debug, want, found))
+        for g, cases in results.items():
+            bad = [c for c in cases if c[2] != c[3]]
+            if bad:
+                policy, debug, want, found = bad[0]
+                r.violation(g, 'for msg_type=%r, debug=%s the code gives %s, the property needs %s' % (policy, debug, found, want),
+                            fi.loc, expected=want, found=found)
+            else:
+                r.ok(g, '%d cases' % len(cases), fi.loc)
 
 
 # ----------------------------------------------------------------------------- D5
-class CallModel(Model):
-    def __init__(self):
-        self.calls = []
-        self.result = Sym('RESULT-OF-ItemGrader.__call__')
-
-    def global_name(self, name, module):
-        if name == 'super':
-            return Native(lambda *a: Sym('super-proxy', kind='super'), 'super')
-        return NotImplemented
-
-    def attr(self, obj, attr, node, interp):
-        if isinstance(obj, Sym) and obj.data.get('kind') == 'super' and attr == '__call__':
-            def call(*args, **kwargs):
-                self.calls.append((args, kwargs))
-                return self.result
-            return Native(call, 'ItemGrader.__call__')
-        return Model.attr(self, obj, attr, node, interp)
-
-
 def d5_call(ctx, idx):
-    r = ctx.rule('D5.CALL', "__call__ substitutes '' for a missing expect exactly when accept_any or accept_nonempty is set "
-                 "and delegates to ItemGrader.__call__", floor=2)
+    r = ctx.rule('D5.CALL', "__call__ passes '' for a missing expect exactly when accept_any or accept_nonempty is set and "
+                 "delegates to ItemGrader.__call__", floor=2)
     with r:
         fi = idx.func(SG + '.__call__')
         if fi.params[:3] != ['self', 'expect', 'student_input']:
             raise AnalysisError('__call__: signature changed: %s' % fi.params)
-        G = Groups(r, fi.loc)
+        paths = nf.decision_paths(fi.node.body)
+
+        def atom(e):
+            k = nf.config_key(e)
+            if k in ('accept_any', 'accept_nonempty'):
+                return lambda w, k=k: w[k]
+            if isinstance(e, ast.Compare) and len(e.ops) == 1 and X.is_name(e.left, 'expect') and \
+                    isinstance(e.comparators[0], ast.Constant) and e.comparators[0].value is None:
+                if isinstance(e.ops[0], (ast.Is, ast.Eq)):
+                    return lambda w: w['expect_none']
+                if isinstance(e.ops[0], (ast.IsNot, ast.NotEq)):
+                    return lambda w: not w['expect_none']
+            return None
+        guards = X.Guards(atom)
         g1 = "StringGrader.__call__: expect=None becomes '' in the accept modes only"
-        g2 = 'StringGrader.__call__: a given expect and the submission are passed on unchanged'
-        for any_, nonempty in MODES:
-            for expect in (None, 'cat', ''):
-                model = CallModel()
-                it = Interp(idx, model, max_steps=2000)
-                res = outcome(lambda: it.call_function(fi, [expect, 'the input'], {'attempt': 3},
-                                                       self_obj=grader({'accept_any': any_, 'accept_nonempty': nonempty})))
-                want = '' if (expect is None and (any_ or nonempty)) else expect
-                ok = res[0] == 'ret' and res[1] is model.result and len(model.calls) == 1 \
-                    and model.calls[0][0] == (want, 'the input') and model.calls[0][1] == {'attempt': 3}
-                found = show(res) if (res[0] != 'ret' or not model.calls) else \
-                    'ItemGrader.__call__%r %r' % (model.calls[0][0], model.calls[0][1])
-                G.case(g1 if expect is None else g2, ok, 'expect=%r, accept_any=%s, accept_nonempty=%s' % (expect, any_, nonempty),
-                       "ItemGrader.__call__(%r, 'the input', attempt=3) and its result returned" % (want,), found)
-        G.flush()
+        g2 = 'StringGrader.__call__: a given expect is passed on unchanged'
+        stats = {g1: [], g2: []}
+        for w in X.worlds({'expect_none': [True, False], 'accept_any': [False, True], 'accept_nonempty': [False, True]}):
+            sel = X.select_paths(paths, guards, w)
+            if len(sel) != 1:
+                raise AnalysisError('decision paths of __call__ are not exclusive')
+            leaf = sel[0].leaf
+            e = leaf.expr
+            if leaf.kind != 'ret' or not (isinstance(e, ast.Call) and nf.callee_name(e) == '__call__'
+                                          and isinstance(e.func, ast.Attribute) and isinstance(e.func.value, ast.Call)
+                                          and nf.callee_name(e.func.value) == 'super' and len(e.args) >= 2):
+                raise AnalysisError('__call__ does not end in super().__call__(...): %s' % leaf)
+            if not X.is_name(e.args[1], 'student_input'):
+                r.violation('StringGrader.__call__: the submission is passed on unchanged',
+                            'ItemGrader.__call__ receives `%s` as the submission' % short(e.args[1]), lib.loc(fi, leaf.stmt))
+            first = e.args[0]
+            got = "''" if (isinstance(first, ast.Constant) and first.value == '') else (
+                'expect' if X.is_name(first, 'expect') else short(first))
+            want = "''" if (w['expect_none'] and (w['accept_any'] or w['accept_nonempty'])) else 'expect'
+            stats[g1 if w['expect_none'] else g2].append((w, want, got, leaf))
+        for g, cases in stats.items():
+            bad = [c for c in cases if c[1] != c[2]]
+            if bad:
+                w, want, got, leaf = bad[0]
+                r.violation(g, 'for expect %s, accept_any=%s, accept_nonempty=%s ItemGrader.__call__ receives %s, the property needs %s'
+                            % ('None' if w['expect_none'] else 'given', w['accept_any'], w['accept_nonempty'], got, want),
+                            lib.loc(fi, leaf.stmt), expected=want, found=got)
+            else:
+                r.ok(g, '%d cases' % len(cases), fi.loc)
 
 
 # ------------------------------------------------------------------------ self-test
@@ -578,29 +933,33 @@ MUTANTS = [
     Mutant('extra-replace', SGF, "        cleaned = cleaned.replace('\\t', ' ')\n", "        cleaned = cleaned.replace('\\t', ' ')\n        cleaned = cleaned.replace('-', ' ')\n", 'D1'),
     Mutant('tab-deleted', SGF, "        cleaned = cleaned.replace('\\t', ' ')", "        cleaned = cleaned.replace('\\t', '')", 'D1'),
     Mutant('collapse-any-whitespace', SGF, "re.sub(r' +', ' ', cleaned)", "re.sub(r'\\s+', ' ', cleaned)", 'D1'),
-    Mutant('collapse-pairs-only', SGF, "re.sub(r' +', ' ', cleaned)", "cleaned.replace('  ', ' ')", 'D1'),
+    Mutant('collapse-single-pass-replace', SGF, "re.sub(r' +', ' ', cleaned)", "cleaned.replace('  ', ' ')", 'D1'),
+    Mutant('collapse-star', SGF, "re.sub(r' +', ' ', cleaned)", "re.sub(r' *', ' ', cleaned)", 'D1'),
+    Mutant('collapse-to-nothing', SGF, "re.sub(r' +', ' ', cleaned)", "re.sub(r' +', '', cleaned)", 'D1'),
     Mutant('lf-forgotten', SGF, "        cleaned = cleaned.replace('\\n', ' ')\n", "", 'D1'),
+    Mutant('collapse-under-strip-flag', SGF, "        if self.config['clean_spaces']:\n            cleaned = re.sub", "        if self.config['strip']:\n            cleaned = re.sub", 'D1'),
     Mutant('validation-by-search', SGF, "            if re.fullmatch(pattern, student) is None:", "            if re.search(pattern, student) is None:", 'D3'),
     Mutant('validation-dollar-appended', SGF, "            if re.fullmatch(pattern, student) is None:", "            if re.match(pattern + \"$\", student) is None:", 'D3'),
     Mutant('validation-prefix-match', SGF, "            if re.fullmatch(pattern, student) is None:", "            if re.match(pattern, student) is None:", 'D3'),
     Mutant('answer-validation-dollar-appended', SGF, "                if re.fullmatch(pattern, expect) is None:", "                if re.match(pattern + '$', expect) is None:", 'D3'),
     Mutant('validation-on-raw-input', SGF, "            if re.fullmatch(pattern, student) is None:", "            if re.fullmatch(pattern, student_input) is None:", 'D3'),
-    Mutant('validation-skipped-in-accept-modes', SGF, "        if pattern is not None:", "        if pattern is not None and not accept_any:", 'D3'),
-    Mutant('answer-validated-in-accept-modes', SGF, "            if not accept_any:\n                # Make sure that expect matches the pattern", "            if accept_any:\n                # Make sure that expect matches the pattern", 'D3'),
-    Mutant('validation-policy-from-minimums', SGF, "                                              self.config['explain_validation'])", "                                              self.config['explain_minimums'])", 'D3'),
-    Mutant('answer-mismatch-error-class', SGF, "                    raise ConfigError(msg.format(answer['expect'], pattern))", "                    raise InvalidInput(msg.format(answer['expect'], pattern))", 'D3'),
-    Mutant('min-length-inclusive', SGF, "            if chars < min_length:", "            if chars <= min_length:", 'D4'),
-    Mutant('min-words-inclusive', SGF, "            if words < self.config['min_words']:", "            if words <= self.config['min_words']:", 'D4'),
-    Mutant('nonempty-not-enforced', SGF, "        if self.config['accept_nonempty'] and min_length == 0:\n            min_length = 1\n", "", 'D4'),
-    Mutant('char-message-wins', SGF, _MIN_BLOCKS, _MIN_BLOCKS_SWAPPED, 'D4'),
+    Mutant('validation-skipped-in-accept-modes', SGF, "        if pattern is not None:", "        if pattern is not None and not accept_any:", 'D34'),
+    Mutant('answer-validated-in-accept-modes', SGF, "            if not accept_any:\n                # Make sure that expect matches the pattern", "            if accept_any:\n                # Make sure that expect matches the pattern", 'D34'),
+    Mutant('validation-policy-from-minimums', SGF, "                                              self.config['explain_validation'])", "                                              self.config['explain_minimums'])", 'D34'),
+    Mutant('answer-mismatch-error-class', SGF, "                    raise ConfigError(msg.format(answer['expect'], pattern))", "                    raise InvalidInput(msg.format(answer['expect'], pattern))", 'D34'),
+    Mutant('min-length-inclusive', SGF, "            if chars < min_length:", "            if chars <= min_length:", 'D34'),
+    Mutant('min-words-inclusive', SGF, "            if words < self.config['min_words']:", "            if words <= self.config['min_words']:", 'D34'),
+    Mutant('nonempty-not-enforced', SGF, "        if self.config['accept_nonempty'] and min_length == 0:\n            min_length = 1\n", "", 'D34'),
+    Mutant('nonempty-lowers-min-length', SGF, "        if self.config['accept_nonempty'] and min_length == 0:", "        if self.config['accept_nonempty']:", 'D34'),
+    Mutant('char-message-wins', SGF, _MIN_BLOCKS, _MIN_BLOCKS_SWAPPED, 'D34'),
     Mutant('words-split-on-single-space', SGF, "            words = len(student.split())", "            words = len(student.split(' '))", 'D4'),
-    Mutant('length-of-raw-input', SGF, "            chars = len(student)", "            chars = len(student_input)", 'D4'),
-    Mutant('minimums-policy-from-validation', SGF, "                                              self.config['explain_minimums'])", "                                              self.config['explain_validation'])", 'D4'),
+    Mutant('length-of-raw-input', SGF, "            chars = len(student)", "            chars = len(student_input)", 'D2'),
+    Mutant('minimums-policy-from-validation', SGF, "                                              self.config['explain_minimums'])", "                                              self.config['explain_validation'])", 'D34'),
     Mutant('policy-err-msg-exchanged', SGF, "        if msg_type == 'err':", "        if msg_type == 'msg':", 'D4'),
     Mutant('policy-debug-ignored', SGF, "        elif msg_type == 'msg' or self.config['debug']:", "        elif msg_type == 'msg':", 'D4'),
     Mutant('policy-none-shows-message', SGF, "        elif msg_type == 'msg' or self.config['debug']:", "        else:", 'D4'),
-    Mutant('equality-inverted', SGF, "            if student != expect:", "            if student == expect:", 'D2'),
-    Mutant('correct-result-pinned', SGF, "            'ok': answer['ok'],", "            'ok': True,", 'D2'),
+    Mutant('equality-inverted', SGF, "            if student != expect:", "            if student == expect:", 'D34'),
+    Mutant('correct-result-pinned', SGF, "            'ok': answer['ok'],", "            'ok': True,", 'D34'),
     Mutant('call-ignores-accept-nonempty', SGF, "        if expect is None and (self.config['accept_any'] or self.config['accept_nonempty']):", "        if expect is None and self.config['accept_any']:", 'D5'),
     Mutant('call-overrides-given-expect', SGF, "        if expect is None and (self.config['accept_any'] or self.config['accept_nonempty']):", "        if expect is None or (self.config['accept_any'] or self.config['accept_nonempty']):", 'D5'),
 ]
@@ -612,10 +971,14 @@ BENIGN = [
     Benign('crlf-lfcr-exchanged', SGF, "        cleaned = cleaned.replace('\\r\\n', ' ')\n        cleaned = cleaned.replace('\\n\\r', ' ')\n",
            "        cleaned = cleaned.replace('\\n\\r', ' ')\n        cleaned = cleaned.replace('\\r\\n', ' ')\n"),
     Benign('collapse-two-or-more', SGF, "re.sub(r' +', ' ', cleaned)", "re.sub(r' {2,}', ' ', cleaned)"),
+    Benign('collapse-by-loop', SGF, "            cleaned = re.sub(r' +', ' ', cleaned)\n", "            while '  ' in cleaned:\n                cleaned = cleaned.replace('  ', ' ')\n"),
     Benign('strip-all-else-clean-spaces', SGF, "        if self.config['clean_spaces']:\n            cleaned = re.sub", "        elif self.config['clean_spaces']:\n            cleaned = re.sub"),
     Benign('nonempty-by-max', SGF, "        if self.config['accept_nonempty'] and min_length == 0:\n            min_length = 1\n",
            "        if self.config['accept_nonempty']:\n            min_length = max(min_length, 1)\n"),
     Benign('case-fold-first', SGF, "        cleaned = str(input)\n", "        cleaned = str(input)\n        if not self.config['case_sensitive']:\n            cleaned = cleaned.lower()\n"),
+    Benign('strip-before-line-break-mapping', SGF, "        cleaned = str(input)\n", "        cleaned = str(input)\n        if self.config['strip']:\n            cleaned = cleaned.strip()\n"),
+    Benign('chained-replaces', SGF, "        cleaned = cleaned.replace('\\r', ' ')\n        cleaned = cleaned.replace('\\n', ' ')\n", "        cleaned = cleaned.replace('\\r', ' ').replace('\\n', ' ')\n"),
     Benign('equality-positive-form', SGF, "            if student != expect:\n                return {'ok': False, 'grade_decimal': 0, 'msg': ''}",
            "            if not (student == expect):\n                return {'ok': False, 'grade_decimal': 0, 'msg': ''}"),
+    Benign('record-keys-reordered', SGF, "                return {'ok': False, 'grade_decimal': 0, 'msg': ''}\n        else:", "                return {'msg': '', 'ok': False, 'grade_decimal': 0}\n        else:"),
 ]
